@@ -20,10 +20,10 @@ func Check() *common.Check {
 		ID:    "C18",
 		Level: "model_checking",
 		Rule: "explicit-state search over message histories, each replayed on a fresh real lsp.Server over in-memory streams with the reference model (uri -> text, version; UTF-16 clamping position arithmetic) in lock-step. " +
-			"Space A: every history of length <= 3 (quick) / <= 4 (thorough) over the 46-message alphabet of checks/c18/alphabet.go, plus every history of length 4 (quick) / 5 (thorough, alphabet reduced to the 24 document and request messages) that starts with a didOpen. " +
+			"Space A: every history of length <= 3 (quick) / <= 4 (thorough) over the 51-message alphabet of checks/c18/alphabet.go, plus every history of length 4 (quick) / 5 (thorough, alphabet reduced to 24 document and request messages) that starts with a didOpen. " +
 			"Space B: for each of 6 small documents every incremental edit with start/end line in [-1, lines+1] and character in [-1, longest line+2] x 4 replacement texts; thorough adds every ordered pair of in-contract edits over a reduced coordinate set. " +
 			"distinct = distinct history (names of its messages / document+ranges); non-trivial = the history owes at least one response or holds an open, untainted document at its end (A), the edit is in contract (B); " +
-			"states = distinct (model document, model version, server document, server version, liveness flags) observed after a transition; transitions = messages delivered to a server",
+			"states = distinct (model document open/defined/text, server document open/text) pairs observed after a transition; transitions = messages delivered to a server",
 		Assume: []string{
 			"the server's own stream discipline is synchronous (no goroutines in pkg/lsp); the harness still takes every verdict after Run has returned and matches responses by id, snapshots between messages are used only to name the failing step",
 			"protocol rules taken as given: Position.character counts UTF-16 code units; character past the line end clamps to the line end; line past the last line clamps to the document end; negative coordinates, start after end and a character inside a surrogate pair are undefined (only liveness and response rules are checked for those); documents contain no '\\r'",
@@ -43,21 +43,22 @@ func enumerate(e *common.Enum) {
 	if e.Thorough() {
 		depth = 4
 	}
-	// ---- Space A: all histories up to depth
-	idx := make([]int, 0, depth+1)
-	var rec func()
-	rec = func() {
-		runA(e, al, idx)
-		if len(idx) == depth {
-			return
+	// ---- Space A: all histories up to depth, shortest first
+	for n := 0; n <= depth; n++ {
+		idx := make([]int, n)
+		var rec func(k int)
+		rec = func(k int) {
+			if k == n {
+				runA(e, al, idx)
+				return
+			}
+			for i := range al {
+				idx[k] = i
+				rec(k + 1)
+			}
 		}
-		for i := range al {
-			idx = append(idx, i)
-			rec()
-			idx = idx[:len(idx)-1]
-		}
+		rec(0)
 	}
-	rec()
 	// ---- Space A': one more message behind an open document
 	var sub []int // alphabet of the extension
 	for i, it := range al {
@@ -110,7 +111,7 @@ func runA(e *common.Enum, al []item, h []int) {
 		for i, x := range hh {
 			steps[i] = al[x].gen(m, i)
 		}
-		evaluate(c, "A", m, steps)
+		evaluate(c, "A", key, m, steps)
 	})
 }
 
@@ -196,7 +197,11 @@ func runB(c *common.Ctx, doc string, eds ...edit) {
 	for i, ed := range eds {
 		steps = append(steps, changeStep(m, "change", i+1, ed))
 	}
-	evaluate(c, "B", m, steps)
+	title := fmt.Sprintf("B: open %q", doc)
+	for _, ed := range eds {
+		title += fmt.Sprintf(" ; change %d:%d-%d:%d %q", ed.S.L, ed.S.C, ed.E.L, ed.E.C, ed.Text)
+	}
+	evaluate(c, "B", title, m, steps)
 }
 
 // ---------------------------------------------------------------------------
@@ -211,13 +216,45 @@ func describe(steps []step) string {
 	return b.String()
 }
 
-func evaluate(c *common.Ctx, space string, m *model, steps []step) {
-	c.Input(describe(steps))
+// The framework keeps every reported failure in memory.  On a tree with a defect that a large
+// part of the space runs into (a panic on any negative position fails every history that contains
+// such a message) that is millions of records, so a worker process reports at most failCap
+// failing cases per signature - the first ones in enumeration order, i.e. the shortest histories -
+// and only counts the rest (counter "failures:<signature>" holds the true total).
+const failCap = 200
+
+var failSeen = map[string]int{}
+
+type reporter struct {
+	c *common.Ctx
+	n int
+}
+
+func (r *reporter) Fail(sig, msg string) {
+	r.n++
+	r.c.Count("failures:"+sig, 1)
+	failSeen[sig]++
+	if failSeen[sig] <= failCap || r.c.Enum().Replaying() {
+		r.c.Fail(sig, msg)
+	}
+}
+func (r *reporter) Failed() bool            { return r.n > 0 }
+func (r *reporter) Count(n string, v int64) { r.c.Count(n, v) }
+func (r *reporter) Outcome(o string)        { r.c.Outcome(o) }
+func (r *reporter) NonTrivial()             { r.c.NonTrivial() }
+func (r *reporter) State(h uint64)          { r.c.State(h) }
+func (r *reporter) Input(s string)          { r.c.Input(s) }
+func (r *reporter) Sample(v any)            { r.c.Sample(v) }
+
+func evaluate(cc *common.Ctx, space, title string, m *model, steps []step) {
+	c := &reporter{c: cc}
+	desc := title + "\n" + describe(steps)
+	c.Input(desc)
 	names := make([]string, len(steps))
 	for i, s := range steps {
 		names[i] = s.name
 	}
-	c.Sample(map[string]any{"space": space, "history": names, "frames": describe(steps)})
+	c.Sample(map[string]any{"space": space, "history": names, "frames": desc})
 
 	res := runHistory(steps)
 	c.Count("transitions", int64(res.fetched))
@@ -240,7 +277,11 @@ func evaluate(c *common.Ctx, space string, m *model, steps []step) {
 			nm = steps[at].name
 		}
 		c.Outcome(space + ":panic")
-		c.Fail(panicSig(res.stack), fmt.Sprintf("server died: panic %q while handling message #%d (%s)\n%s", res.panicVal, at, nm, common.Trim(res.stack, 1800)))
+		cls := "?"
+		if at >= 0 && at < len(steps) {
+			cls = steps[at].pClass
+		}
+		c.Fail(panicSig(res.stack)+"@"+cls, fmt.Sprintf("server died: panic %q while handling message #%d (%s)\n%s", res.panicVal, at, nm, common.Trim(res.stack, 1800)))
 		return
 	}
 	// ... and returns only at EOF or after exit
@@ -375,13 +416,26 @@ func evaluate(c *common.Ctx, space string, m *model, steps []step) {
 			}
 			c.Fail("mirror-mismatch:"+cls, fmt.Sprintf("server document %q (open=%v) but the edits give %q", res.content, res.open, m.doc.text))
 		} else {
-			checkDiagnostics(c, m, out)
+			c.Count("mirror_equal_asserted", 1)
+			checkDiagnostics(c, mainURI, m.doc, out)
 		}
 		outc = space + ":open"
 	} else if docChecks && m.doc == nil && res.open {
 		c.Fail("mirror-mismatch:close", fmt.Sprintf("document is closed in the model but the server still holds %q", res.content))
 	} else if m.doc != nil && m.doc.tainted {
 		outc = space + ":out-of-contract"
+	}
+	if docChecks {
+		switch {
+		case m.other == nil && res.oOpen:
+			c.Fail("mirror-mismatch:close", fmt.Sprintf("second document is closed in the model but the server still holds %q", res.oContent))
+		case m.other != nil && (!res.oOpen || res.oContent != m.other.text):
+			c.Fail("mirror-mismatch:other-document", fmt.Sprintf("second document: server holds %q (open=%v) but the edits give %q", res.oContent, res.oOpen, m.other.text))
+		case m.other != nil:
+			c.Count("mirror_equal_asserted", 1)
+			checkDiagnostics(c, otherURI, m.other, out)
+			outc += "+b"
+		}
 	}
 	if m.exited >= 0 {
 		outc += "+exit"
@@ -390,7 +444,7 @@ func evaluate(c *common.Ctx, space string, m *model, steps []step) {
 		outc += "+unsure"
 	}
 	c.Outcome(fmt.Sprintf("%s/resp%d", outc, owed))
-	if owed > 0 || (docChecks && m.doc != nil && !m.doc.tainted) {
+	if owed > 0 || (docChecks && m.doc != nil && !m.doc.tainted) || (docChecks && m.other != nil) {
 		c.NonTrivial()
 	}
 }
@@ -414,14 +468,14 @@ type diagMsg struct {
 // protocol), as many diagnostics as ParseWithRecovery reports errors for the model
 // text and - where the lines can be located independently - each on its line.
 // If the server never published anything for the uri nothing is asserted.
-func checkDiagnostics(c *common.Ctx, m *model, out []outMsg) {
+func checkDiagnostics(c *reporter, uri string, doc *mdoc, out []outMsg) {
 	var last *diagMsg
 	for _, o := range out {
 		if o.method != "textDocument/publishDiagnostics" {
 			continue
 		}
 		var d diagMsg
-		if json.Unmarshal(o.params, &d) != nil || d.URI != mainURI {
+		if json.Unmarshal(o.params, &d) != nil || d.URI != uri {
 			continue
 		}
 		dd := d
@@ -430,18 +484,23 @@ func checkDiagnostics(c *common.Ctx, m *model, out []outMsg) {
 	if last == nil {
 		return
 	}
-	if last.Version != nil && *last.Version != m.doc.ver {
-		c.Fail("diag-version", fmt.Sprintf("last publishDiagnostics carries version %d, the document is at version %d", *last.Version, m.doc.ver))
+	if last.Version != nil && *last.Version != doc.ver {
+		c.Fail("diag-version", fmt.Sprintf("last publishDiagnostics carries version %d, the document is at version %d", *last.Version, doc.ver))
 		return
 	}
-	_, errs := gosqlx.ParseWithRecovery(m.doc.text)
+	c.Count("diag_version_and_count_asserted", 1)
+	_, errs := gosqlx.ParseWithRecovery(doc.text)
 	if len(last.Diagnostics) != len(errs) {
-		c.Fail("diag-count", fmt.Sprintf("last publishDiagnostics has %d diagnostics, ParseWithRecovery reports %d errors for %q", len(last.Diagnostics), len(errs), m.doc.text))
+		c.Fail("diag-count", fmt.Sprintf("last publishDiagnostics has %d diagnostics, ParseWithRecovery reports %d errors for %q", len(last.Diagnostics), len(errs), doc.text))
 		return
 	}
-	want, ok := brokenLines(m.doc.text)
+	want, ok := brokenLines(doc.text)
 	if !ok || len(want) != len(errs) {
 		return
+	}
+	c.Count("diag_lines_asserted", 1)
+	if len(want) > 0 {
+		c.Count("diag_lines_asserted_nonempty", 1)
 	}
 	var got []int
 	for _, d := range last.Diagnostics {
@@ -449,7 +508,11 @@ func checkDiagnostics(c *common.Ctx, m *model, out []outMsg) {
 	}
 	sort.Ints(got)
 	if fmt.Sprint(got) != fmt.Sprint(want) {
-		c.Fail("diag-line", fmt.Sprintf("diagnostics published on lines %v, the broken statements are on lines %v of %q", got, want, m.doc.text))
+		sig := "diag-line:wrong-line"
+		if got[len(got)-1] == 0 {
+			sig = "diag-line:all-at-line-0" // every diagnostic on the first line although broken statements are elsewhere
+		}
+		c.Fail(sig, fmt.Sprintf("diagnostics published on lines %v, the broken statements are on lines %v of %q", got, want, doc.text))
 	}
 }
 
